@@ -92,13 +92,15 @@ def run(ctx):
     import os
     src = vf.read(os.path.join(vf.VERIF, 'harness', 'c07_hist.cpp')).decode()
     ts = [t for t in units.enum_types() if t['kind'] == 0]
-    jobs = [{'name': 'c07hist_' + t['name'], 'src': src, 'opt': '-O1',
+    jobs = [{'name': 'c07hist_' + t['name'], 'src': src, 'opt': '-O1', 'link': ('-lquadmath', '-pthread'),
              'flags': ['-DVF_HDR=%s' % t['hdr'], '-DVF_E=%s' % t['cpp'], '-DVF_ENAME="%s"' % t['name']]} for t in ts]
     bins = ctx.build_all(jobs)
     for t, (b, err) in zip(ts, bins):
         if not b:
             raise vf.Undecided('c07_hist for %s does not compile: %s' % (t['name'], err[:1500]))
     ctx.pmap(lambda b: ctx.run(b[0]), bins)
+    # the same tables asked from different threads, one after another, in both orders of first use (one process per order)
+    ctx.pmap(lambda a: ctx.run(a[0], args=a[1]), [(b[0], m) for b in bins for m in (['threads'], ['threads', 'new-thread-first'])])
     ev += h.stat('histories')
     h.stats['consistent_units'] = len(tables) * len(systems)
     h.stats['reverse_lookups'] = len(bound)
